@@ -283,3 +283,80 @@ def check_all_nodes_are_vertices(ctx, res, dotted="projections.bipartite_project
         res.violation(rule, f, norm(member_only.node), "vertex-per-node", "node vertices are created only while walking the members of the hyperedges, never from get_nodes(): a node that lies in no hyperedge has no vertex in the bipartite projection (and no node centrality)", loc(v.fi, member_only.node))
     else:
         res.unknown(rule, f, "for node in h.get_nodes(): g.add_node(...)", "vertex-per-node", "no vertex creation driven by get_nodes() recognised", loc(v.fi, v.fi.node))
+
+
+def check_line_graph_prefilter(ctx, res, dotted="projections.line_graph", rule="L-PREFILTER"):
+    """A size pre-filter on the hyperedges that enter the pairwise comparison of the s-line graph may only drop hyperedges
+    that cannot share s nodes with anything: it has to keep every hyperedge with len(e) >= s (a hyperedge of size exactly s
+    nested in a larger one shares s nodes with it).  The filter is tabulated over (len(e), s)."""
+    from .. import predtab
+
+    v = ctx.view(dotted)
+    f = v.fi.short
+    params = {a.arg for a in v.fi.params}
+    if "s" not in params:
+        res.unknown(rule, f, "def line_graph(..., s, ...)", "keeps-len>=s", "no parameter `s`", loc(v.fi, v.fi.node))
+        return
+    found = 0
+    for comp in ast.walk(v.fi.node):
+        if not isinstance(comp, (ast.ListComp, ast.SetComp, ast.GeneratorExp)):
+            continue
+        for g in comp.generators:
+            it = v.inline(g.iter)
+            if not any(isinstance(x, ast.Call) and isinstance(x.func, ast.Attribute) and x.func.attr in ("get_incident_edges", "get_edges") for x in ast.walk(it)):
+                continue
+            tv = g.target.id if isinstance(g.target, ast.Name) else None
+            for cond in g.ifs:
+                ci = v.inline(cond)
+                if not any(isinstance(x, ast.Call) and norm(x.func) == "len" for x in ast.walk(ci)):
+                    continue
+                found += 1
+
+                class Sub(ast.NodeTransformer):
+                    def visit_Call(self, n):
+                        if isinstance(n.func, ast.Name) and n.func.id == "len" and n.args and isinstance(n.args[0], ast.Name) and n.args[0].id == tv:
+                            return ast.Name(id="L", ctx=ast.Load())
+                        return self.generic_visit(n)
+
+                def alternatives(e):
+                    """replace every conditional expression by each of its arms"""
+                    for x in ast.walk(e):
+                        if isinstance(x, ast.IfExp):
+                            outs = []
+                            for arm in (x.body, x.orelse):
+                                outs += alternatives(_replace(e, x, arm))
+                            return outs
+                    return [e]
+
+                def _replace(e, old, new):
+                    import copy as _c
+
+                    e2 = _c.deepcopy(e)
+                    olds = [y for y in ast.walk(e) ]
+                    news = [y for y in ast.walk(e2)]
+                    idx = next(i for i, y in enumerate(olds) if y is old)
+                    target = news[idx]
+
+                    class R(ast.NodeTransformer):
+                        def visit_IfExp(self, n):
+                            if n is target:
+                                return _c.deepcopy(new)
+                            return self.generic_visit(n)
+
+                    return R().visit(e2)
+
+                worst = "ok"
+                why = ""
+                for alt in alternatives(Sub().visit(ci)):
+                    tab = predtab.table(alt, ["L", "s"], lo=1, hi=7)
+                    if tab is None:
+                        if worst == "ok":
+                            worst, why = "unknown", "the size pre-filter is not a plain comparison of len(e) with s"
+                        continue
+                    bad = [k for k, val in tab.items() if k[0] >= k[1] and not val]
+                    if bad:
+                        L_, s_ = bad[0]
+                        worst, why = "violation", f"the pre-filter `{norm(cond)}` drops a hyperedge of size {L_} for s={s_}: nested in a larger hyperedge it shares {s_} nodes with it, so its arc of the s-line graph is lost (and the centralities computed on the line graph change)"
+                res.add(rule, f, norm(cond)[:120], "keeps-len>=s", worst, why, loc(v.fi, comp))
+    if not found:
+        res.ok(rule, f, "no size pre-filter", "keeps-len>=s", loc(v.fi, v.fi.node))
